@@ -59,7 +59,8 @@ Print Assumptions C03_L4_sample_roundtrip.
 Example C03_L4_nonvacuous :
   let s := {| s_name := [LF; DQ; BS; RBRACE]; s_labels := [([DQ; LF], [BS; DQ; COMMA; RBRACE])];
               s_value := FFin true (s2l "1000000.0"); s_ts_ms := Some 1500%Z; s_ts_om := None; s_ex := None |} in
-  exists body, text_sample_line s = body ++ [LF] /\
+  let body := removelast (text_sample_line s) in
+  text_sample_line s = body ++ [LF] /\
     parse_sample false true (str) (fun t => Some t) (fun t => Some t) (fun t => Ok t) true body
     = Ok {| ps_name := s_name s; ps_labels := sort_kv (s_labels s); ps_value := s2l "1e+06"; ps_ts := Some (s2l "1500") |}.
-Proof. cbv zeta. eexists. split; vm_compute; reflexivity. Qed.
+Proof. vm_compute. split; reflexivity. Qed.
